@@ -57,17 +57,22 @@ func (idk *IdKeeper) update(bndl *bpv7.Bundle) {
 	idk.mutex.Unlock()
 
 	if idk.autoClean {
-		idk.clean()
+		idk.clean(tpl)
 	}
 }
 
-// clean removes states which are older an hour and aren't the epoch time.
-func (idk *IdKeeper) clean() {
+// clean removes states which are older than a day and aren't the epoch time. The state which was just handed out is
+// kept in any case: a bundle with an old creation time must not get the same sequence number again and again.
+func (idk *IdKeeper) clean(keep idTuple) {
 	idk.mutex.Lock()
 
-	var threshold = bpv7.DtnTimeNow() - 60*60*24
+	// a DtnTime counts milliseconds
+	var threshold = bpv7.DtnTimeNow() - 24*60*60*1000
 
 	for tpl := range idk.data {
+		if tpl == keep {
+			continue
+		}
 		if tpl.time < threshold && tpl.time != bpv7.DtnTimeEpoch {
 			delete(idk.data, tpl)
 		}
